@@ -127,4 +127,39 @@ NumF == {B8(0,0,0,0,0,0,0,0), B8(128,0,0,0,0,0,0,0), B8(0,0,0,0,0,0,0,1), B8(0,1
 NumSet == {N("u", b) : b \in NumU} \cup {N("i", b) : b \in NumI} \cup {N("f", b) : b \in NumF}
 \* payloads for the decoder: every tag (and a few non-tags) with every length 0..10
 NumPayloads == {<<>>} \cup {<<t>> \o Rep(f, n) : t \in {0, 16, 32, 48, 64, 80, 96, 112, 1, 65, 255}, f \in {0, 128, 255}, n \in 0..10}
+----------------------------------------------------------------------------
+(* argument domains derived from the document *)
+Flip(b) == IF b >= 65 /\ b <= 90 THEN b + 32 ELSE IF b >= 97 /\ b <= 122 THEN b - 32 ELSE b
+FlipCase(s) == [i \in 1..Len(s) |-> Flip(s[i])]
+PresentKeys(d) == IF d.k = "obj" THEN {d.o[i][1] : i \in 1..Len(d.o)} ELSE {}
+StringElems(d) == IF d.k = "arr" THEN {d.a[i].s : i \in {j \in 1..Len(d.a) : d.a[j].k = "str"}} ELSE {}
+NameArgs(d) ==
+  LET base == PresentKeys(d) \cup StringElems(d)
+  IN {n \in (base \cup {FlipCase(s) : s \in base} \cup {Sub(s, 1, Len(s) - 1) : s \in {x \in base : Len(x) > 0}}
+            \cup {s \o <<98>> : s \in base} \cup {kEmpty, ka}) : WellFormed(n)}
+Width1(d) == IF d.k = "arr" THEN Len(d.a) ELSE IF d.k = "obj" THEN Len(d.o) ELSE 1
+IndexArgs(d) == (0 - (Width1(d) + 2))..(Width1(d) + 2)
+
+RECURSIVE KPaths(_, _)
+\* key paths along the document and one step past it, including kind mismatches
+KPaths(d, fuel) ==
+  IF fuel = 0 THEN {<<>>}
+  ELSE
+    {<<>>} \cup
+    (CASE d.k = "arr" ->
+            UNION {{<<[i |-> i]>> \o p :
+                       p \in (IF ResolveIdx(i, Len(d.a)) < 0 THEN {<<>>}
+                              ELSE KPaths(d.a[ResolveIdx(i, Len(d.a)) + 1], fuel - 1))}
+                   : i \in (0 - (Len(d.a) + 1))..(Len(d.a) + 1)}
+            \cup {<<[n |-> ka]>>}
+       [] d.k = "obj" ->
+            UNION {{<<[n |-> d.o[j][1]]>> \o p : p \in KPaths(d.o[j][2], fuel - 1)} : j \in 1..Len(d.o)}
+            \cup UNION {{<<[q |-> d.o[j][1]]>> \o p : p \in KPaths(d.o[j][2], fuel - 1)} : j \in 1..Len(d.o)}
+            \cup {<<[n |-> <<122>>]>>, <<[i |-> 0]>>, <<[n |-> <<122>>], [i |-> 0]>>}
+       [] OTHER -> {<<[i |-> 0]>>, <<[n |-> ka]>>, <<[i |-> -1], [n |-> ka]>>})
+
+KeyLists(d) ==
+  LET ks == PresentKeys(d) \cup {<<122>>}
+  IN {SortKeys(x) : x \in {y \in SUBSET ks : Cardinality(y) <= 3}}
+
 =============================================================================
